@@ -62,6 +62,11 @@ CLAIMED = {
    note="Trusted: Lean kernel; Spec/PortMemory.lean; controller-side stub written from crossbar.py; master obeys the port rules of the property. Equal-width path (plain connect) not modelled.",
    technique="Lean 4 proof (FSM/trace invariants by induction over schedules, refuting witnesses by kernel evaluation) + cycle-exact co-simulation + Lean port-memory specification evaluated on implementation runs",
    design="§6 C07"),
+ "C08": dict(
+   text="Lean model of migen's AsyncFIFO (gray-coded pointers, two-stage synchronisers, dual-clock memory with registered read) and of LiteDRAMNativePortCDC (three of them), where time is a sequence of instants at which the write clock, the read clock or both rise; theorem cdc_fifo_correct for EVERY such sequence and every valid/ready behaviour: the words delivered are exactly the first words accepted, in order, and never more than depth are in flight - proved by an invariant over the history (synchronised pointer copies lag, reader never passes what it saw written, writer never more than depth ahead of what it saw read, unread slots intact, output register holds the next word), with the two gray-code facts checked by kernel evaluation for depths 2..32; the model is tied to the real LiteDRAMNativePortCDC edge by edge in Migen's two-clock simulation over 13 period pairs x random phases (thousands of coincident edges), and the stream specification is evaluated on all three channels of the real module.",
+   note="Trusted: Lean kernel; Spec/FifoSpec.lean; Migen's simulator (MultiReg = two plain registers; no metastability, which is what the gray code addresses); stream masters hold valid until ready.",
+   technique="Lean 4 proof (history invariant by induction over arbitrary two-clock schedules; finite gray-code tables by decide +kernel) + edge-exact two-clock co-simulation + Lean stream specification evaluated on implementation runs",
+   design="§6 C08"),
  "C09": dict(
    text="Cycle-accurate Lean model of LiteDRAMAXI2Native: LiteX AXIBurst2Beat, channel buffers, buffered write/read FIFOs with their reservation counters, write-ID/response FIFOs (storage modelled exactly), round-robin arbitration and the read-modify-write FSM, co-simulated against the real module for data widths 16..128, buffer depths 2..16, base addresses, with and without read-modify-write under legal AXI4 traffic (FIXED/INCR/WRAP, lengths 1..16, narrow sizes, unaligned starts, strobes inside the active lanes, W leading or trailing AW, stalls on all five channels incl. long B/R back-pressure); two Lean specifications are evaluated on the real module: Spec/AxiSpec (one B per burst in order with its ID and only after its data reached the native port; len+1 R beats with ID and LAST in order) and Spec/PortMemory (strobed bytes, read-after-response); theorems: FIXED/INCR address sequences of the burst-to-beat generator, byte-exact read-modify-write merge, RMW starts only on a drained write path and what each RMW state does, read reservation bounded for every run, command source/arbitration. Three genuine defects found and fixed.",
    note="Trusted: Lean kernel; Spec/AxiSpec.lean, Spec/PortMemory.lean; native-side stub written from crossbar.py; the master avoids read/write hazards so the memory specification is sequential; WRAP addresses are checked against an independent AXI reference in the harness (no theorem).",
